@@ -15,6 +15,8 @@ Space
              negating (a, b); at the largest precision of a tier b > 0 only, a*b+c being odd in (b, c)), small
              bounded formats the full cube, larger bounded formats the declared slab
              a in {+-0} u [1,2), b in {+-0} u [1,2) u +-(lowest normal binade), c any member;
+             the product variants additionally on the scale-reduced square a in [1,2), b in +-[1,2) (and zeros)
+             at the next larger precisions (quick p = 5, 6; thorough p = 7, 8);
              veltkamp_split(x, s) for every member x and every 1 <= s <= p-1;
              split(x, n) n in [-6, 6], modf, frexp, ldexp(x, n) n in [-8, 8] for every member in the window
              [-8, 8], +-0, +-inf, NaN and Python floats carrying three more bits than the format.
@@ -70,17 +72,21 @@ SPECIAL_X = {'+0': X.zero(False), '-0': X.zero(True), '+inf': X.inf(False), '-in
 class Entry:
     """one context configuration (minus the rounding mode) and what is run under it"""
 
-    def __init__(self, cfg: Config, ovf='OVERFLOW', only_ideal=False, probe=0, pairs=True, wide_modes=ALL,
+    def __init__(self, cfg: Config, ovf='OVERFLOW', only_ideal=False, probe=0, pairs=True, triples=True, wide_modes=ALL,
                  fma_modes=ALL, fma_nearest=NEAREST, half_b=False):
         self.cfg = cfg
         self.ovf = ovf
         self.only_ideal = only_ideal      # run only the ideal_* family (and the decompositions)
         self.probe = probe                # > 0: also run statically precondition-false cells (p <= probe), unjudged
-        self.pairs = pairs                # run the two-operand functions
+        self.pairs = pairs                # True: every pair; 'mul': only the product variants, on the
+        #                                   scale-reduced square a in {+-0} u [1,2), b in {+-0} u +-[1,2)
+        #                                   (a*b commutes with scaling either operand in an unbounded format)
         self.wide_modes = wide_modes      # modes under which the all-mode two-operand functions are run
         self.fma_modes = fma_modes        # modes under which ideal_fma is run
         self.fma_nearest = fma_nearest    # modes under which classic_2fma is run
         self.half_b = half_b              # triples: b > 0 only (a*b+c is odd in (b, c))
+        self.triples = triples            # run the three-operand functions
+        self.dec = triples                # run veltkamp_split and the decompositions (off for the product-only entries)
 
     def text(self):
         return f'{self.cfg.text()}/{self.ovf}'
@@ -98,7 +104,8 @@ def entries(tier: str, seed: int = 0) -> list[Entry]:
     if quick:
         for p in (2, 3, 4):
             out.append(Entry(Config('MPFloat', {'p': p}), probe=3))
-        out.append(Entry(Config('MPFloat', {'p': 5}), pairs=False, half_b=True, fma_modes=FOUR, fma_nearest=('RNE',)))
+        out.append(Entry(Config('MPFloat', {'p': 5}), pairs='mul', half_b=True, fma_modes=FOUR, fma_nearest=('RNE',)))
+        out.append(Entry(Config('MPFloat', {'p': 6}), pairs='mul', triples=False))
         for p, emin in ((2, -2), (3, -2)):
             out.append(Entry(Config('MPSFloat', {'p': p, 'emin': emin})))
         out.append(Entry(Config('MPSFloat', {'p': 4, 'emin': -2}), wide_modes=tuple(dict.fromkeys(FOUR + (rot,))),
@@ -109,6 +116,8 @@ def entries(tier: str, seed: int = 0) -> list[Entry]:
         for p in (2, 3, 4, 5):
             out.append(Entry(Config('MPFloat', {'p': p}), probe=4))
         out.append(Entry(Config('MPFloat', {'p': 6}), half_b=True, fma_modes=FOUR))
+        for p in (7, 8):
+            out.append(Entry(Config('MPFloat', {'p': p}), pairs='mul', triples=False))
         for p, emin in ((2, -2), (3, -2), (4, -2), (3, -5), (4, -5)):
             out.append(Entry(Config('MPSFloat', {'p': p, 'emin': emin})))
         out.append(Entry(Config('MPSFloat', {'p': 5, 'emin': -2}), fma_modes=FOUR))
@@ -310,7 +319,9 @@ class Check(BaseCheck):
             return None
         if spec.kind not in m['kinds']:
             return None
-        if m['ar'] == 2 and not entry.pairs:
+        if m['ar'] == 2 and (not entry.pairs or (entry.pairs == 'mul' and m['op'] != 'mul')):
+            return None
+        if m['ar'] == 3 and not entry.triples:
             return None
         reasons = []
         if mode not in m['modes']:
@@ -334,6 +345,15 @@ class Check(BaseCheck):
         return 'probe:' + '+'.join(reasons)
 
     def tuples(self, entry: Entry, spec: R.Spec, ar: int):
+        """-> (list of first operands, function first -> iterator of the remaining operands), as texts"""
+        if ar == 2 and entry.pairs == 'mul':
+            vals = operand_values(spec, wide=False)
+            unit = [str(v) for v in binade(spec, vals, 0)]
+            B = unit + ['-' + u for u in unit] + ['+0', '-0']
+            return unit + ['+0', '-0'], lambda a: ((b,) for b in B)
+        return self._tuples(entry, spec, ar)
+
+    def _tuples(self, entry: Entry, spec: R.Spec, ar: int):
         """-> (list of first operands, function first -> iterator of the remaining operands), as texts"""
         vals = operand_values(spec, wide=False)
         zeros = ['+0', '-0'] if spec.has_negzero else ['+0']
@@ -369,6 +389,8 @@ class Check(BaseCheck):
                     cost = n * FNS[fn]['cost']
                     parts = max(1, min(len(A), int(cost / 6000) + 1))
                     out.extend((cost / parts, ('eft', ei, mi, fn, k, parts)) for k in range(parts))
+                if not entry.dec:
+                    continue
                 if spec.kind == 'float' and mode in NEAREST and not entry.only_ideal:
                     out.append((100, ('velt', ei, mi)))
                 out.append((3000, ('dec', ei, mi)))
